@@ -598,6 +598,16 @@ _LIES = []
 _spy_cls = None
 
 
+def _unstr(v):
+    """np.asarray of a list holding the marker and numbers is an array of strings: read the numbers back."""
+    if isinstance(v, str) and v != MARKER:
+        try:
+            return float(v)
+        except ValueError:
+            return v
+    return v
+
+
 def _spy_estimator():
     global _spy_cls
     if _spy_cls is None:
@@ -605,7 +615,7 @@ def _spy_estimator():
 
         class SpyRegressor(DummyRegressor):
             def fit(self, X, y, sample_weight=None):
-                _REC.append(list(y.tolist() if hasattr(y, "tolist") else y))
+                _REC.append([_unstr(v) for v in (y.tolist() if hasattr(y, "tolist") else y)])
                 return super().fit(X, y)
 
         _spy_cls = SpyRegressor
